@@ -2,7 +2,7 @@ From AQ Require Import lib.Base model.Codec model.Varint model.RangeSet model.Ac
 From AQ Require Import model.TlsCodec model.TParams proofs.TParamsProofs proofs.TParamsRoundtrip proofs.TParamsReencode.
 From AQ Require Import proofs.CodecProofs proofs.VarintProofs proofs.AckFrameProofs proofs.HeaderProofs proofs.TlsCodecProofs.
 From AQ Require Import proofs.TlsListProofs proofs.TlsRoundtrip proofs.TlsTotal proofs.TlsDumpInverse.
-From AQ Require Import gen.C17Bits proofs.CBitsProofs gen.C17Blocks proofs.TlsNested.
+From AQ Require Import gen.C17Bits proofs.CBitsProofs gen.C17Blocks proofs.TlsNested proofs.TlsReencode.
 
 (* ---- variable-length integers (RFC 9000 section 16) ---- *)
 Theorem varint_roundtrip : forall v rest, 0 <= v < 2 ^ 62 ->
@@ -502,3 +502,42 @@ Theorem known_ext_body_not_nested_refuted :
   (exists d, pull_certificate_request [13; 0; 0; 11; 0; 0; 8; 0; 13; 0; 0; 0; 2; 8; 4] = Ok (d, [])).
 Proof. exact TlsNested.known_ext_body_not_nested_refuted. Qed.
 Print Assumptions known_ext_body_not_nested_refuted.
+
+(* ---- TLS messages: decode, then re-encode ----
+   canonical messages: the consumed bytes are exactly the encoding of the decoded record (push(pull(bs)) = bs) *)
+Theorem certificate_reencode : forall bs d rest, bytes_ok bs -> pull_certificate bs = Ok (d, rest) ->
+  exists m, d = dump_certificate m /\
+            enc_seq (tree_certificate m) = Ok (flat_seq (tree_certificate m)) /\
+            bs = flat_seq (tree_certificate m) ++ rest.
+Proof. exact TlsReencode.certificate_reencode. Qed.
+Print Assumptions certificate_reencode.
+
+Theorem certificate_verify_reencode : forall bs d rest, bytes_ok bs -> pull_certificate_verify bs = Ok (d, rest) ->
+  exists m, d = dump_certificate_verify m /\ certificate_verify_wf m = true /\
+            enc_seq (tree_certificate_verify m) = Ok (flat_seq (tree_certificate_verify m)) /\
+            bs = flat_seq (tree_certificate_verify m) ++ rest.
+Proof. exact TlsReencode.certificate_verify_reencode. Qed.
+Print Assumptions certificate_verify_reencode.
+
+Theorem finished_reencode : forall bs d rest, bytes_ok bs -> pull_finished bs = Ok (d, rest) ->
+  exists vd, d = out_bytes vd /\ enc_seq (tree_finished vd) = Ok (flat_seq (tree_finished vd)) /\
+             bs = flat_seq (tree_finished vd) ++ rest.
+Proof. exact TlsReencode.finished_reencode. Qed.
+Print Assumptions finished_reencode.
+
+(* a message with an extension list: the decoded record is well-formed, the encoder succeeds, the re-encoding is never
+   longer and decodes to the same record; the bytes may differ (duplicates, F13) *)
+Theorem new_session_ticket_reencode : forall bs d rest, bytes_ok bs -> pull_new_session_ticket bs = Ok (d, rest) ->
+  exists m bytes', d = dump_new_session_ticket m /\ new_session_ticket_wf m = true /\
+    enc_seq (tree_new_session_ticket m) = Ok bytes' /\ Zlen bytes' + Zlen rest <= Zlen bs /\
+    forall rest', pull_new_session_ticket (bytes' ++ rest') = Ok (d, rest').
+Proof. exact TlsReencode.new_session_ticket_reencode. Qed.
+Print Assumptions new_session_ticket_reencode.
+
+Theorem nst_reencode_not_canonical_refuted :
+  (let bs := [4; 0; 0; 30; 0; 0; 0; 1; 0; 0; 0; 2; 0; 0; 1; 7; 0; 16; 0; 42; 0; 4; 0; 0; 16; 0; 0; 42; 0; 4; 0; 0; 32; 0] in
+   exists b, reenc_nst bs = Some b /\ b <> bs /\ Zlen b < Zlen bs) /\
+  (let bs := [4; 0; 0; 22; 0; 0; 0; 1; 0; 0; 0; 2; 0; 0; 1; 7; 0; 8; 0; 42; 0; 0; 0; 0; 16; 0] in
+   exists b, reenc_nst bs = Some b /\ b <> bs /\ Zlen b = Zlen bs).
+Proof. exact TlsReencode.nst_reencode_not_canonical_refuted. Qed.
+Print Assumptions nst_reencode_not_canonical_refuted.
